@@ -6,6 +6,7 @@ from fractions import Fraction
 import numpy as np
 
 from ..gen import sampling as G
+from ..gen import sampling_crowded as GC
 
 ID = "C13"
 LEVEL = "exploration"
@@ -17,10 +18,14 @@ RULE = (
     "calls, multiplicities 1-6, empty results inside groups) / batches (0-12 circuits, batch sizes 1..k+5 and 1e6, equal / "
     "sorted / huge requests) / represent (1-12 outcomes, widths 1-5, seven weight styles x 1-5000 shots) / represent_forced "
     "(equal probabilities with every share rounding down resp. up, so shots must be added resp. eliminated; plus a "
-    "variant with a zero-copy outcome of large elimination weight that forces the re-draw branch) / discretize "
+    "variant with a zero-copy outcome of large elimination weight that forces the re-draw branch) / represent_crowded "
+    "(2-80 outcomes incl. 8/9, 16/17, 32/33, 64/65, widths 1-7, small shares 0-3 + a fraction on one side of 1/2, 0-3 "
+    "heavy outcomes, so that several shots are corrected at once: the same outcome drawn repeatedly, several outcomes "
+    "over-drawn in one pass, outcomes without any copy drawn for elimination) / discretize "
     "(1-10 positive weights x totals 1..1e12, weights x total <= 1e15). Non-trivial: some request exceeds the maximum "
     "(expand, pipelines), some multiplicity >= 2 (combine), >= 2 batches with unequal requests inside one batch (batches), "
-    "rounded shares do not sum to the shot number (represent), >= 2 weights with a non-integer share (discretize); "
+    "rounded shares do not sum to the shot number (represent; represent_crowded: by at least 2), >= 2 weights with a "
+    "non-integer share (discretize); "
     "distinct = distinct canonical case strings"
 )
 ASSUMPTIONS = [
@@ -31,11 +36,17 @@ ASSUMPTIONS = [
     "combined results are compared as per-circuit multisets (the property fixes totals, not an order inside a circuit)",
     "split_into_batches returns a lazy iterable: the monitor materialises it and hands the caller an equivalent iterator",
     "support of a distribution = outcomes with probability > 0",
+    "the first correction draw and the arguments of _check_sample_elimination are only READ (tallies of what the correction "
+    "step was confronted with: repeated draws, outcomes drawn more often than copies exist); the verdict is always the one "
+    "on the public result (size and support)",
 ]
 DECIDING = [
     "expand_sample_sizes", "combine_measurement_counts", "combine_bitstrings", "split_into_batches",
     "M.get_measurements_representing_distribution", "scale_and_discretize",
     "pipeline-exactly-once", "pipeline-totals",
+    # situations inside the correction step that must have been met AND judged on the public result
+    "represent:top-up-draws-an-outcome-repeatedly", "represent:elimination-one-outcome-overdrawn",
+    "represent:elimination-several-outcomes-overdrawn-in-one-pass", "represent:elimination-overdrawn-outcome-has-copies",
 ]
 BRANCHES = ["representing_distribution:add", "representing_distribution:eliminate", "_check_sample_elimination:resample"]
 BUDGET = {"quick": (4, 30, 36000), "thorough": (16, 120, 400000)}
@@ -45,7 +56,7 @@ BIG = 2 ** 53
 
 def classes(tier):
     return ["expand", "expand_big", "pipeline_bitstrings", "pipeline_counts", "combine", "batches",
-            "represent", "represent_forced", "discretize"]
+            "represent", "represent_forced", "represent_crowded", "discretize"]
 
 
 # ----------------------------------------------------------------------------- helpers
@@ -266,7 +277,35 @@ def _post_batches(mon, call):
     mon.ok(name)
 
 
+def _bits(key):
+    return tuple(int(x) for x in key)
+
+
+def _post_first_draw(mon, call):
+    """sample_from_probability_distribution called directly by the routine under test: its first correction draw"""
+    st = getattr(mon, "c13_represent", None)
+    if st is None or call.exc is not None or "draw" in st:
+        return
+    try:
+        st["draw"] = {_bits(k): int(v) for k, v in call.result.items()}
+    except Exception:
+        st["draw"] = None
+
+
+def _pre_elimination(mon, call):
+    st = getattr(mon, "c13_represent", None)
+    if st is None or "overdrawn" in st:
+        return
+    try:
+        want = {_bits(k): int(v) for k, v in _arg(call, 0, "samples").items()}
+        have = Counter(tuple(b) for b in _arg(call, 1, "bitstring_samples"))
+        st["overdrawn"] = [(have[k], v) for k, v in want.items() if v > have[k]]
+    except Exception:
+        st["overdrawn"] = None
+
+
 def _pre_represent(mon, call):
+    mon.c13_represent = {}
     dist = _arg(call, 1, "measurement_outcome_distribution")
     try:
         return [(tuple(int(x) for x in k), float(v)) for k, v in dist.distribution_dict.items()]
@@ -276,6 +315,7 @@ def _pre_represent(mon, call):
 
 def _post_represent(mon, call):
     name = "M.get_measurements_representing_distribution"
+    st, mon.c13_represent = getattr(mon, "c13_represent", None) or {}, None
     n = _arg(call, 2, "number_of_samples")
     items = call.pre
     if items is None or not items or not _is_int(n) or n < 1 or any(v < 0 or not math.isfinite(v) for _, v in items) \
@@ -302,6 +342,19 @@ def _post_represent(mon, call):
     mon.note("represent: shots added" if rounded < n else "represent: shots eliminated" if rounded > n
              else "represent: rounded shares already exact")
     mon.ok(name)
+    # what the correction step was confronted with in this (correctly answered) call
+    draw, over = st.get("draw"), st.get("overdrawn")
+    if "overdrawn" not in st:  # no elimination: the draw (if any) was a top-up
+        if draw and max(draw.values()) >= 2:
+            mon.ok("represent:top-up-draws-an-outcome-repeatedly")
+    elif over is not None:
+        if len(over) == 1:
+            mon.ok("represent:elimination-one-outcome-overdrawn")
+        if len(over) >= 2:
+            mon.ok("represent:elimination-several-outcomes-overdrawn-in-one-pass")
+        if any(have >= 1 for have, _ in over):
+            mon.ok("represent:elimination-overdrawn-outcome-has-copies")
+        mon.note(f"represent: first elimination draw over-draws {min(len(over), 4)}{'+' if len(over) >= 4 else ''} outcomes")
 
 
 def _pre_discretize(mon, call):
@@ -355,17 +408,17 @@ def install(mon, reach):
     from orquestra.quantum.measurements import measurements as MM
 
     M = MM.Measurements
-    reach.watch(IT._expand_sample_size, "_expand_sample_size",
+    reach.watch(getattr(IT, "_expand_sample_size", None), "_expand_sample_size",
                 markers={"exact-multiple": r"multiplicities \* \(max_sample_size,\)", "remainder": r"n_samples % max_sample_size,\)"})
     reach.watch(IT.expand_sample_sizes, "expand_sample_sizes")
     reach.watch(IT.combine_measurement_counts, "combine_measurement_counts")
     reach.watch(IT.combine_bitstrings, "combine_bitstrings")
-    reach.watch(IT._combine_measurements, "_combine_measurements")
+    reach.watch(getattr(IT, "_combine_measurements", None), "_combine_measurements")
     reach.watch(IT.split_into_batches, "split_into_batches")
-    reach.watch(IT._iterate_in_batches, "_iterate_in_batches")
+    reach.watch(getattr(IT, "_iterate_in_batches", None), "_iterate_in_batches")
     reach.watch(M.get_measurements_representing_distribution, "representing_distribution",
                 markers={"add": r"^\s+for sample in samples:", "eliminate": r"samples = _check_sample_elimination\("})
-    reach.watch(MM._check_sample_elimination, "_check_sample_elimination",
+    reach.watch(getattr(MM, "_check_sample_elimination", None), "_check_sample_elimination",
                 markers={"resample": r"nresamples = correct_samples\[sample\]"})
     reach.watch(U.scale_and_discretize, "scale_and_discretize", markers={"top-up": r"\] \+= 1"})
 
@@ -375,6 +428,9 @@ def install(mon, reach):
     mon.hook_func(IT, "split_into_batches", post=_post_batches, name="split_into_batches")
     mon.hook_method(M, "get_measurements_representing_distribution", post=_post_represent, pre=_pre_represent,
                     name="M.get_measurements_representing_distribution")
+    # read-only observers (depth 1 inside the routine under test): what its correction step had to cope with
+    mon.hook_func(U, "sample_from_probability_distribution", post=_post_first_draw, name="first-correction-draw")
+    mon.hook_func(MM, "_check_sample_elimination", pre=_pre_elimination, name="elimination-arguments")
     mon.hook_func(U, "scale_and_discretize", post=_post_discretize, pre=_pre_discretize, name="scale_and_discretize")
 
 
@@ -519,16 +575,18 @@ def run_case(ctx):
                   lambda: f"k={k} max_batch={mb}: caller iterated {seen!r}")
         return
 
-    if cls in ("represent", "represent_forced"):
+    if cls in ("represent", "represent_forced", "represent_crowded"):
         np.random.seed(rng.getrandbits(32))
         if cls == "represent":
             style, d = G.rand_distribution(rng)
             n = G.rand_shot_number(rng, len(d))
+        elif cls == "represent_crowded":
+            style, d, n = GC.crowded_distribution(rng)
         else:
             style = rng.choice(["add", "eliminate", "eliminate_phantom"])
             d, n = G.forced_distribution(rng, style)
         rounded = sum(int(round(p * n)) for p in d.values())
-        ctx.describe(f"{cls}[{style}] n={n} dist={d!r}", rounded != n)
+        ctx.describe(f"{cls}[{style}] n={n} dist={d!r}", abs(rounded - n) >= (2 if cls == "represent_crowded" else 1))
         keyform = rng.choice(["str", "tuple"])
         dist = MeasurementOutcomeDistribution(dict(d) if keyform == "str" else {tuple(int(c) for c in k): v for k, v in d.items()})
         Measurements.get_measurements_representing_distribution(dist, n)
